@@ -34,6 +34,13 @@ ASSUMPTIONS = [
     "them duplicate-free and disjoint); memory safety of the unsafe pointer code is not claimed",
     "bounded_notify assumes the documented Notify protocol: the pin token is the key and every release is notified "
     "(TinyLFU::unpin); without it the Poll-style bound bounded_poll_partial applies",
+    "ATOMIC EVICTION ATTEMPT: the pin question (LifecycleListener::is_pinned) and the removal of an eviction attempt are one "
+    "atomic step with respect to get/entry (remove_closure does both under one write lock of the scc bucket). The sequential "
+    "model has this built in (removeClosure is one function) and lock_table_same_lock / pinned_never_evicted rely on it; "
+    "same_lock_needs_atomic_eviction_holds and same_lock_fails_when_eviction_is_split (two-step check/remove LTS, Lemmas/TinyLfuAtomic) "
+    "state that it is exactly what is needed. Whether the real code keeps it is NOT provable from the single-thread "
+    "correspondence; it is checked by the oracle-only multi-thread runs, in particular the thread stress of the lock table "
+    "(capacity 1-3, 4-8 keys, 8-16 threads, live-instance registry; 128 runs and ~2*10^7 acquisitions per quick check)",
     "the lock-table theorem is about the model of get_lock_instance; the real QueryLockManager is crate-private, the harness "
     "stresses a replica of its 20-line glue over the real TinyLFU (a cfg(qbice_verif) re-export would allow driving the original)",
 ]
